@@ -300,3 +300,107 @@ pub async fn reader_suite<TC: ModelCfg, R: Reader<TC>>(
     }
     bads
 }
+
+/// Judge one reader answer obtained under concurrency / lag: Err is fine; Ok must name a really
+/// published (epoch, hash) and verify against it with ground truth as of that epoch.
+/// `min_epoch`: the answer must be served from an epoch at least this new.
+pub async fn judge_answer<TC: ModelCfg>(
+    op: &crate::conc::Op,
+    res: &crate::conc::OpResult,
+    model: &DirModel,
+    published: &[D32],
+    min_epoch: u64,
+) -> Result<Option<u64>, Bad> {
+    use crate::conc::{Op, OpResult};
+    let too_old = |e: u64| -> Result<(), Bad> {
+        if e < min_epoch {
+            Err(bad("answered_from_epoch_older_than_signalled", json!({"answered_at": e, "min_epoch": min_epoch})))
+        } else {
+            Ok(())
+        }
+    };
+    match (op, res) {
+        (Op::Lookup(l), OpResult::Lookup(r)) => match r {
+            Err(_) => Ok(None),
+            Ok((proof, eh)) => {
+                let m = published_model(eh, model, published)?;
+                too_old(eh.0)?;
+                match verify_lookup::<TC>(l, proof.clone(), eh) {
+                    Err(e) => Err(bad("lookup_proof_does_not_verify", json!({"label": show_bytes(l), "epoch": eh.0, "error": e}))),
+                    Ok(vr) => {
+                        if Some(&vr) != m.latest(l).as_ref() {
+                            Err(bad("lookup_wrong_result", json!({"label": show_bytes(l), "epoch": eh.0, "got": show_vr(&vr), "truth": format!("{:?}", m.latest(l))})))
+                        } else {
+                            Ok(Some(eh.0))
+                        }
+                    }
+                }
+            }
+        },
+        (Op::BatchLookup(ls), OpResult::BatchLookup(r)) => match r {
+            Err(_) => Ok(None),
+            Ok((proofs, eh)) => {
+                let m = published_model(eh, model, published)?;
+                too_old(eh.0)?;
+                if proofs.len() != ls.len() {
+                    return Err(bad("batch_lookup_wrong_shape", json!({"proofs": proofs.len(), "labels": ls.len()})));
+                }
+                for (l, p) in ls.iter().zip(proofs.iter()) {
+                    match verify_lookup::<TC>(l, p.clone(), eh) {
+                        Err(e) => return Err(bad("batch_lookup_proof_does_not_verify", json!({"label": show_bytes(l), "epoch": eh.0, "error": e}))),
+                        Ok(vr) => {
+                            if Some(&vr) != m.latest(l).as_ref() {
+                                return Err(bad("batch_lookup_wrong_result", json!({"label": show_bytes(l), "epoch": eh.0, "got": show_vr(&vr)})));
+                            }
+                        }
+                    }
+                }
+                Ok(Some(eh.0))
+            }
+        },
+        (Op::History(l, p), OpResult::History(r)) => match r {
+            Err(_) => Ok(None),
+            Ok((proof, eh)) => {
+                let m = published_model(eh, model, published)?;
+                too_old(eh.0)?;
+                let n = match p {
+                    HistoryParams::Complete => None,
+                    HistoryParams::MostRecent(n) => Some(*n),
+                };
+                let vp = HistoryVerificationParams::Default { history_params: *p };
+                match verify_history::<TC>(l, proof.clone(), eh, vp) {
+                    Err(e) => Err(bad("history_proof_does_not_verify", json!({"label": show_bytes(l), "params": hp_name(p), "epoch": eh.0, "error": e}))),
+                    Ok(list) => {
+                        if Some(&list) != m.history(l, n).as_ref() {
+                            Err(bad("history_wrong_result", json!({"label": show_bytes(l), "params": hp_name(p), "epoch": eh.0, "got": list.iter().map(show_vr).collect::<Vec<_>>()})))
+                        } else {
+                            Ok(Some(eh.0))
+                        }
+                    }
+                }
+            }
+        },
+        (Op::Audit(s, e), OpResult::Audit(r)) => match r {
+            Err(_) => Ok(None),
+            Ok(proof) => {
+                if *e as usize >= published.len() {
+                    return Err(bad("audit_of_unpublished_epoch_served", json!({"start": s, "end": e, "latest_published": published.len() - 1})));
+                }
+                let hashes: Vec<D32> = published[*s as usize..=*e as usize].to_vec();
+                match akd::auditor::audit_verify::<TC>(hashes, proof.clone()).await {
+                    Ok(()) => Ok(Some(*e)),
+                    Err(err) => Err(bad("audit_proof_does_not_verify", json!({"start": s, "end": e, "error": format!("{err:?}")}))),
+                }
+            }
+        },
+        (Op::EpochHash, OpResult::EpochHash(r)) => match r {
+            Err(_) => Ok(None),
+            Ok(eh) => {
+                published_model(eh, model, published)?;
+                too_old(eh.0)?;
+                Ok(Some(eh.0))
+            }
+        },
+        _ => Ok(None),
+    }
+}
